@@ -14,7 +14,19 @@ def main(path):
         return 0
     mod = importlib.import_module(spec[0])
     t = getattr(mod, spec[1])(*spec[2])
-    ok, c, s = t.native_agree(wit)
+    fns = []
+    if isinstance(wit, dict) and wit.get("__prelude__"):
+        from pyvc import task as T
+        print("earlier calls (history the failure needs):", wit.get("__earlier_calls__"))
+        fns = T.run_prelude(wit["__prelude__"])
+    if isinstance(wit, dict):
+        wit = {k: v for k, v in wit.items() if not k.startswith("__") or k == "__schedule__"}
+    try:
+        ok, c, s = t.native_agree(wit)
+    finally:
+        for fn in fns:
+            if hasattr(fn, "cache_clear"):
+                fn.cache_clear()
     print(f"witness {wit!r}: real code -> {c!r}; sidecar spec -> {s!r}")
     if ok:
         print("the recorded counterexample no longer fails on this tree")
